@@ -91,6 +91,7 @@ def gen(streams, tier, i):
     k["max_seg"] = cfg.choice([2, 3, 4])
     if cfg.random() < 0.4:
         k["overlap"] = "asym"
+    k["p_hairpin_circle"] = 0.15
     doc = G.gen_doc(streams.get("document"), k)
     lines = doc["lines"]
     if doc["version"] == "gfa2":
